@@ -365,8 +365,9 @@ class Decoder(wiring.Component):
                 if hasattr(sub_bus, "bte"):
                     m.d.comb += sub_bus.bte.eq(getattr(self.bus, "bte", BurstTypeExt.LINEAR))
 
-                granularity_bits = exact_log2(self.bus.data_width // self.bus.granularity)
-                with m.Case(sub_pat[:-granularity_bits if granularity_bits > 0 else None]):
+                # Only keep the pattern bits that match the word address. The memory map is at least
+                # one bit wide, even if the bus has no address signal at all.
+                with m.Case(sub_pat[:self.bus.addr_width]):
                     m.d.comb += [
                         sub_bus.cyc.eq(self.bus.cyc),
                         self.bus.dat_r.eq(sub_bus.dat_r),
